@@ -276,7 +276,15 @@ def _len_eval(x, env):
     if k == 'call' and x[1].endswith('::len') and len(x[2]) == 1 and x[2][0][0] == 'param':
         return env[x[2][0][1]]
     if k == 'un' and x[1] == 'Not':
-        return not _len_eval(x[2], env)
+        v = _len_eval(x[2], env)
+        if not isinstance(v, bool):
+            raise Undecidable('integer complement of a length: ' + pp(x)[:100])
+        return not v
+    if k == 'cast' and x[1] == 'IntToInt' and x[2] in _INT_W and not x[2].startswith('i'):
+        v = _len_eval(x[3], env)
+        if isinstance(v, bool):
+            raise Undecidable('cast of a boolean: ' + pp(x)[:100])
+        return v & ((1 << _INT_W[x[2]]) - 1)          # `len as u16` keeps len mod 2^16
     if k == 'bin' and x[1] in _CMP:
         return _CMP[x[1]](_len_eval(x[2], env), _len_eval(x[3], env))
     if k == 'bin' and x[1] in ('BitAnd', 'BitOr', 'BitXor'):
@@ -284,6 +292,16 @@ def _len_eval(x, env):
         if isinstance(l, bool) and isinstance(r, bool):
             return {'BitAnd': l and r, 'BitOr': l or r, 'BitXor': l != r}[x[1]]
     raise Undecidable('not a length comparison: ' + pp(x)[:100])
+
+
+def _cast_widths(x, out):
+    if not isinstance(x, tuple) or not x:
+        return
+    if x[0] == 'cast' and x[1] == 'IntToInt' and x[2] in _INT_W and _INT_W[x[2]] < 64:
+        out.add(_INT_W[x[2]])
+    for y in x[1:]:
+        if isinstance(y, tuple):
+            _cast_widths(y, out)
 
 
 def _thresholds(x, out):
@@ -303,14 +321,25 @@ def len_grid_table(a, params):
     if a.cfg.back_edges():
         raise Undecidable('loop in ' + a.body.key)
     ks = set()
+    ws = set()
     for bi in sorted(a.cfg.reach):
         t = a.body.blocks[bi]['term']
         if t['k'] == 'switch':
-            _thresholds(strip_sites(a.val_op(t['discr'], a.term_point(bi))), ks)
+            d = strip_sites(a.val_op(t['discr'], a.term_point(bi)))
+            _thresholds(d, ks)
+            _cast_widths(d, ws)
     top = (max(ks) if ks else 0) + 1
     if top > 64:
         raise Undecidable('length thresholds too large')
     reps = list(range(0, top + 1))
+    # a narrowing cast makes the verdict depend on (len, len mod 2^w): one representative per pair of classes —
+    # every small class again shifted by 2^w (same residue, but a large length), and the largest residue
+    for w in sorted(ws):
+        if (1 << w) <= top + 1:
+            raise Undecidable('narrowing cast below the comparison thresholds')
+        reps += [(1 << w) - 1] + [(1 << w) + r for r in range(0, top + 1)]
+    if len(ws) > 1:
+        raise Undecidable('several narrowing widths')
     rows = []
     import itertools
     for combo in itertools.product(reps, repeat=len(params)):
